@@ -19,7 +19,9 @@ Record obs := mkO {
   o_out : option (list line);                         (* content of the DESCRIBED stdout file *)
   o_err : option (list line);
   o_sig : list bytes;                                 (* content of pre_exec.sig *)
-  o_line : option bytes }.                            (* the command line text in the exec script *)
+  o_line : option bytes;                              (* the command line text in the exec script *)
+  o_blocked : list Z }.                               (* ranks whose exec script was still running when the
+                                                         harness gave up waiting (o_lrc = -1 then) *)
 
 (* ---- equality ------------------------------------------------------------- *)
 Definition sigk_eqb (a b : sigk) : bool :=
@@ -96,7 +98,8 @@ Definition mobs_of (c : cfg) (t : task) (L : lst) : obs :=
       (file_at (described_path c t (t_stdout t) ".out") (l_outf L))
       (file_at (described_path c t (t_stderr t) ".err") (l_errf L))
       (flat_map s_sig (l_ranks L))
-      (Some (get_exec (t_exe t) (t_args t))).
+      (Some (get_exec (t_exe t) (t_args t)))
+      [].   (* every script of the model ends: Script.Barrier shows that the rank synchronisation lets every rank pass *)
 
 Definition unmodelled (L : lst) : bool := s_unmod (l_st L) || existsb s_unmod (l_ranks L).
 
@@ -127,7 +130,8 @@ Definition obs_eqb (m o : obs) : bool :=
   && eqb_list robs_eqb (o_ranks m) (o_ranks o)
   && olines_eqb (o_out m) (o_out o) && olines_eqb (o_err m) (o_err o)
   && perm_eqb bytes_eqb (o_sig m) (o_sig o)
-  && eqb_option bytes_eqb (o_line m) (o_line o).
+  && eqb_option bytes_eqb (o_line m) (o_line o)
+  && eqb_list Z.eqb (o_blocked m) (o_blocked o).
 
 (* ---- the description, read as a specification ----------------------------- *)
 Definition stubs (cs : list cmd) : list (Z * Z) :=
@@ -317,9 +321,13 @@ Section Clauses.
         | _, _ => false
         end).
 
+  (* every rank's exec script (and the launch script) ends; a rank still blocked -- e.g. in the rank
+     synchronisation -- when the harness gives up is a violation *)
+  Definition ok_terminates (o : obs) : bool := is_nil (o_blocked o) && negb (o_lrc o =? -1).
+
   Definition clauses (o : obs) : list bool :=
     [ ok_argv o; ok_env o; ok_rp_env o; ok_cwd o; ok_order o; ok_per_rank o; ok_pre_blocks o;
-      ok_exit o; ok_output o; ok_runs o ].
+      ok_exit o; ok_output o; ok_runs o; ok_terminates o ].
 End Clauses.
 
 (* ---- rows ------------------------------------------------------------------- *)
@@ -332,7 +340,11 @@ Definition c10_row (c : cfg) (t : task) (rcs : list Z) (o : obs) : list bool :=
 (* the generator raised instead of writing scripts *)
 Definition c10_generr_row (c : cfg) (t : task) (rcs : list Z) : list bool :=
   (match model_run c t rcs with inl _ => true | inr _ => false end)
-  :: [false; false; false; false; false; false; false; false; false; false].
+  :: [false; false; false; false; false; false; false; false; false; false; false].
+
+(* a case whose scripts were not executed (see the NOT-RUN lines / evidence): nothing is claimed about it *)
+Definition c10_notrun_row : list bool :=
+  [true; true; true; true; true; true; true; true; true; true; true; true].
 
 Definition show_model (c : cfg) (t : task) (rcs : list Z) :=
   match model_run c t rcs with
